@@ -116,21 +116,37 @@ def lean_side(pid, reg, args):
     res["notes"].append(msg)
     if not ok:
         res["broken"].append("translator:T1(add_mod/sub_mod): " + msg)
-    mods = sorted(set(m for m, _ in theorems)) + ["driver"]
-    ok, log = E.lake_build(mods)
-    if not ok:
-        failed = E.failed_decls(log)
-        res["broken"].append("lake build failed: " + ", ".join(failed or ["(see log)"]))
-        res["log"] = log[-4000:]
-        # is the driver still usable?
-        ok2, _ = E.lake_build(["driver"])
-        res["driver_ok"] = ok2
-        return res
+    ok3, msg3, untranslatable = E.run_t3()
+    res["notes"].append(msg3)
+    res["t3"] = dict(ok=ok3, message=msg3, untranslatable=[f"{f}: {w}" for f, w in untranslatable])
+    mods = sorted(set(m for m, _ in theorems))
+    ok, log = E.lake_build(mods + ["driver"])
     res["driver_ok"] = True
+    res["failed_modules"] = []
+    if not ok:
+        # localise: which of the property's modules no longer check?  (the others are still audited)
+        res["log"] = log[-4000:]
+        for m in mods:
+            okm, logm = E.lake_build([m])
+            if not okm:
+                res["failed_modules"].append(m)
+                res["broken"].append(f"module:{m} does not build: " + ", ".join(E.failed_decls(logm) or ["(see log)"]))
+        okd, _ = E.lake_build(["driver"])
+        res["driver_ok"] = okd
+        if not okd:
+            res["broken"].append("model driver does not build")
+    oks, logs = E.lake_build(["driver_src"])
+    res["driver_src_ok"] = oks
+    if not oks:
+        res["notes"].append("driver_src (translated core) does not build: " + ", ".join(E.failed_decls(logs) or ["(see log)"]))
+    theorems = [(m, t) for m, t in theorems if m not in res["failed_modules"]]
+    for m, t in reg["theorems"]:
+        if m in res["failed_modules"]:
+            res["broken"].append(f"theorem:{t} (in {m}) does not check")
     hits = E.grep_forbidden()
     if hits:
         res["broken"].append("forbidden construct in Lean sources: " + "; ".join(hits[:5]))
-    ax, txt = E.audit_axioms(theorems)
+    ax, txt = E.audit_axioms(theorems) if theorems else ({}, "")
     res["axioms"] = ax
     for t, a in ax.items():
         if a is None:
@@ -199,6 +215,20 @@ def standard_check(pid, reg, tier, seed, args, t0):
     driver_ok = lean.get("driver_ok", True) and os.path.exists(E.DRIVER)
     impl = E.run_impl(binp, cases, extra)
     model = E.run_model(cases) if driver_ok else [None] * len(cases)
+    # the translated core (T3) next to the real crate: validates the translator on this very tree
+    src_stats = dict(ran=False)
+    src_fail = []
+    if lean.get("driver_src_ok") and os.path.exists(E.DRIVER_SRC) and not args.skip_lean:
+        msrc = E.run_model_src(cases)
+        nsrc = 0
+        for c, io, mo in zip(cases, impl, msrc):
+            if mo is None or (io and io[0] == "NOT-RUN") or any(r == "bad-op" for r in io):
+                continue
+            nsrc += 1
+            _, mism, _ = evaluate(dict(reg, oracles=[]), c, io, mo)
+            if mism:
+                src_fail.append((c, io, mo, mism))
+        src_stats = dict(ran=True, cases=nsrc, mismatches=len(src_fail))
     ref_bin = None
     if reg.get("reference_default_build"):
         # implementation-vs-implementation oracle: the default stable build on the same scripts
@@ -308,6 +338,17 @@ def standard_check(pid, reg, tier, seed, args, t0):
                 differing=[dict(line=i, op=o, impl=a, model=b) for i, o, a, b in (mism3 or mism)][:5],
                 cases_differing=len(corr_fail)))
             violations.append((path, " no-failing-input-found"))
+    if src_fail and not violations:
+        # impl and hand model agree, the oracles hold, but the definitions translated from the source
+        # behave differently from the source: the translator (trusted base) is unfaithful here
+        c, io, mo, mism = min(src_fail, key=lambda x: len(x[0]))
+        ops = sorted(set(m[1].split()[0] for m in mism))
+        path = E.write_replay(pid, "translator", dict(
+            broken=[f"correspondence:T3:{o}" for o in ops], script=c, impl_trace=io, translated_model_trace=mo,
+            differing=[dict(line=i, op=o, impl=a, translated=b) for i, o, a, b in mism][:5],
+            cases_differing=len(src_fail),
+            note="the real crate and the Lean definitions translated from its source (Generated/Core.lean) disagree"))
+        violations.append((path, " no-failing-input-found"))
     extra_notes = []
     for f in reg.get("extra_checks", []):
         pr, note = f()
@@ -329,6 +370,7 @@ def standard_check(pid, reg, tier, seed, args, t0):
             checker_cmd=f"cd lean/CircBuf && lake build {' '.join(sorted(set(m for m, _ in reg['theorems'])))} && lake env lean <audit file: #print axioms for each theorem>",
             trusted_base=["Lean 4.33.0 kernel", "axioms: " + json.dumps({k: v for k, v in lean["axioms"].items()}),
                           "T1 translator (translate/t1_addmod.py) for add_mod/sub_mod",
+                          "T3 translator (translate/t3_core.py) for the element-level core, validated on every run by running the translated definitions next to the crate (driver_src)",
                           "hand-written model CircBuf/Model.lean validated by this correspondence run",
                           "Rust harness + hooks (verif_raw, verif_items_mut)"],
             theorems=[t for _, t in reg["theorems"]],
@@ -341,6 +383,8 @@ def standard_check(pid, reg, tier, seed, args, t0):
                                 cases_without_harness_instantiation=unsupported,
                                 operations=opcount),
             proof_obligations_broken=lean["broken"], notes=lean["notes"] + extra_notes,
+            translated_source=dict(translator="translate/t3_core.py -> Generated/Core.lean", **lean.get("t3", {}),
+                                   driver_src=src_stats),
             source_drift=dict(changed_since_modelled=drifted,
                               effect="none" if not drifted else "quick tier widened by a sample of the thorough case set"),
             explanation=reg.get("explanation", ""),
